@@ -282,21 +282,22 @@ structure EvalCtx where
   buffer : List Memo := []          -- raw_output_buffer / the group's rows
 
 /-- `function::get_value` applied to already evaluated arguments; result cached under `key` -/
+def fnValue (cx : EvalCtx) (e? : Option Entry) (f : Function) (av : Variant) (avs : List Str) : EM Variant :=
+  match fileFn e? f av.text with
+  | some r => r
+  | none =>
+    if f == .FormatSize then
+      if av.text.isEmpty then .ok (.empty .string)
+      else match parseU64? av.text with
+        | some n => (match formatFilesize n (avs.headD []) with
+            | .ok (t, ex) => .ok { Variant.ofString t with exact := ex }
+            | .error m => .error (.exit2 m))
+        | none => .ok (.empty .string)
+    else scalarFn cx.cfg.today f av.text avs
+
 def applyFn (cx : EvalCtx) (e? : Option Entry) (f : Function) (key : Str) (av : Variant)
     (avs : List Str) (exs : Bool) (memo : Memo) : EM (Variant × Memo) :=
-  let r : EM Variant :=
-    match fileFn e? f av.text with
-    | some r => r
-    | none =>
-      if f == .FormatSize then
-        if av.text.isEmpty then .ok (.empty .string)
-        else match parseU64? av.text with
-          | some n => (match formatFilesize n (avs.headD []) with
-              | .ok (t, ex) => .ok { Variant.ofString t with exact := ex }
-              | .error m => .error (.exit2 m))
-          | none => .ok (.empty .string)
-      else scalarFn cx.cfg.today f av.text avs
-  match r with
+  match fnValue cx e? f av avs with
   | .error er => .error er
   | .ok v =>
     let v := { v with exact := v.exact && av.exact && exs }
@@ -307,6 +308,10 @@ def aggValue (cx : EvalCtx) (f : Function) (argKey : Str) (memo : Memo) : Varian
   let (txt, ex) := cx.agg f cx.buffer argKey
   ({ Variant.ofString txt with exact := ex }, memo)
 
+def Expr.isVal : Expr → Bool
+  | .val _ _ => true
+  | _ => false
+
 /-- a leading minus on a column or a function call: `0.0 - value` (D39 fix) -/
 def negateIf (minus : Bool) (v : Variant) : Variant :=
   if minus then
@@ -314,22 +319,26 @@ def negateIf (minus : Bool) (v : Variant) : Variant :=
     { r with exact := r.exact && v.exact }
   else v
 
-mutual
-/-- `get_column_expr_value` (+ `get_function_value`): returns the value and the updated memo -/
-def columnValue (cx : EvalCtx) (e? : Option Entry) (memo : Memo) (x : Expr) : EM (Variant × Memo) :=
-  let key := x.display
+/-- the per-row cache: a hit returns the cached text as a string value -/
+def withMemo (memo : Memo) (key : Str) (compute : Unit → EM (Variant × Memo)) : EM (Variant × Memo) :=
   match memo.get? key with
   | some v => .ok (.ofString v, memo)
-  | none =>
-    match x with
-    | .func0 mn f =>
+  | none => compute ()
+
+mutual
+/-- `get_column_expr_value` (+ `get_function_value`): returns the value and the updated memo -/
+def columnValue (cx : EvalCtx) (e? : Option Entry) (memo : Memo) : Expr → EM (Variant × Memo)
+  | .val m v => .ok (.ofSignedString v m, memo)   -- a literal is itself, whatever the memo holds (D61 fix)
+  | .func0 mn f =>
+    withMemo memo (Expr.func0 mn f).display fun _ =>
       -- no first argument: the Rust evaluates a dummy empty literal
       let r : EM (Variant × Memo) := if f.isAggregate then .ok (aggValue cx f [] memo)
-               else applyFn cx e? f key (.ofSignedString [] false) [] true memo
+               else applyFn cx e? f (Expr.func0 mn f).display (.ofSignedString [] false) [] true memo
       match r with
       | .error er => .error er
-      | .ok (v, m) => let v' := negateIf mn v; .ok (v', m.insert key v'.text)
-    | .func mn f l args =>
+      | .ok (v, m) => let v' := negateIf mn v; .ok (v', m.insert (Expr.func0 mn f).display v'.text)
+  | .func mn f l args =>
+    withMemo memo (Expr.func mn f l args).display fun _ =>
       match columnValue cx e? memo l with
       | .error er => .error er
       | .ok (av, m1) =>
@@ -337,22 +346,23 @@ def columnValue (cx : EvalCtx) (e? : Option Entry) (memo : Memo) (x : Expr) : EM
                  else
                    match argValues cx e? m1 args with
                    | .error er => .error er
-                   | .ok (avs, m2, exs) => applyFn cx e? f key av avs exs m2
+                   | .ok (avs, m2, exs) => applyFn cx e? f (Expr.func mn f l args).display av avs exs m2
         match r with
         | .error er => .error er
-        | .ok (v, m) => let v' := negateIf mn v; .ok (v', m.insert key v'.text)
-    | .field mn f =>
+        | .ok (v, m) => let v' := negateIf mn v; .ok (v', m.insert (Expr.func mn f l args).display v'.text)
+  | .field mn f =>
+    withMemo memo (Expr.field mn f).display fun _ =>
       match e? with
       | some e =>
         match fieldValue cx.cfg e f with
-        | .ok v => let v' := negateIf mn v; .ok (v', memo.insert key v'.text)
+        | .ok v => let v' := negateIf mn v; .ok (v', memo.insert (Expr.field mn f).display v'.text)
         | .error er => .error er
       | none =>
         match memo.get? f.display with
         | some v => .ok (.ofString v, memo)
         | none => .ok (.empty .string, memo)
-    | .val m v => .ok (.ofSignedString v m, memo)
-    | .arith l op r =>
+  | .arith l op r =>
+    withMemo memo (Expr.arith l op r).display fun _ =>
       match columnValue cx e? memo l with
       | .error er => .error er
       | .ok (lv, m1) =>
@@ -361,8 +371,9 @@ def columnValue (cx : EvalCtx) (e? : Option Entry) (memo : Memo) (x : Expr) : EM
         | .ok (rv, m2) =>
           let res := op.calc lv rv
           let res := { res with exact := res.exact && lv.exact && rv.exact }
-          .ok (res, m2.insert key res.text)
-    | .cmp l _ _ | .logic l _ _ => columnValue cx e? memo l
+          .ok (res, m2.insert (Expr.arith l op r).display res.text)
+  | .cmp l o r => withMemo memo (Expr.cmp l o r).display fun _ => columnValue cx e? memo l
+  | .logic l o r => withMemo memo (Expr.logic l o r).display fun _ => columnValue cx e? memo l
 
 def argValues (cx : EvalCtx) (e? : Option Entry) (memo : Memo) : List Expr → EM (List Str × Memo × Bool)
   | [] => .ok ([], memo, true)
